@@ -16,6 +16,7 @@ outside a published range.  An escape whose size relative to the magnitude of th
 at most `floatSlack` is counted (and the worst one reported in the answer) but is not a violation.
 -/
 import Rooc.Bounds
+import Rooc.BoundsShadow
 import Rooc.Oracle
 import Rooc.WireModel
 namespace Rooc
@@ -53,6 +54,20 @@ def floatModelAgrees (lin : Bool) (maxSteps : Nat) (tol : Sexp) (d cs es : List 
     let r := if lin then linearizerBounds d cs tol maxSteps else analyzeBounds d cs es tol maxSteps
     encReport r == impl
   | _, _ => false
+
+/-- the analyzer state of the same run at `Shadow` (Float control path, exact values of the same operations),
+provided its `Float` components reproduce the implementation's answer bit for bit. -/
+def shadowAnalyzer (lin : Bool) (maxSteps : Nat) (tol : Sexp) (d cs es : List Sexp) (impl : Sexp) : Option (Analyzer Shadow) :=
+  match (decNumS tol : Option Shadow), decInstance (α := Shadow) d cs es with
+  | some tol, some (d, cs, es) =>
+    let an0 := Analyzer.analyze d cs tol maxSteps
+    let an := if lin then an0.enforceable d else an0
+    let r : BoundsReport Shadow :=
+      { variables := d.map fun dv => (dv.name, Analyzer.boundsOf an.variableBounds (.var dv.name))
+        expressions := if lin then [] else es.map (Analyzer.boundsOf an.variableBounds)
+        domain := an.applyToDomain d }
+    if encReport r == impl then some an else none
+  | _, _ => none
 
 def rabs (q : Rat) : Rat := if q < 0 then -q else q
 def rmax (a b : Rat) : Rat := if a < b then b else a
@@ -233,11 +248,32 @@ def check (lin : Bool) (maxSteps : Nat) (tolS : Sexp) (d csS esS : List Sexp) (i
         | none => Bounds.unbounded
     let lits := dedupQ ((cs.flatMap fun c => literals c.lhs ++ literals c.rhs) ++ es.flatMap literals)
     let coefOverflow := cs.any fun c => formOverflows c.lhs || formOverflows c.rhs
-    -- evaluated only when an escape was found
-    let cause (_ : Unit) : String :=
-      if floatModelAgrees lin maxSteps tolS d csS esS impl then
-        (if coefOverflow then "-coefficient-overflow" else "-float-rounding")
-      else ""
+    -- evaluated only when an escape was found (see `Rooc/BoundsShadow.lean` for the case distinction)
+    let agrees (_ : Unit) : Bool := floatModelAgrees lin maxSteps tolS d csS esS impl
+    let shadowKind (contained : Analyzer Shadow → Bool) : String :=
+      if !(agrees ()) then "" else
+      match shadowAnalyzer lin maxSteps tolS d csS esS impl with
+      | some an =>
+        if contained an then "-float-rounding"
+        else if coefOverflow then "-coefficient-overflow" else "-float-decision"
+      | none => ""
+    let causeVar (name : String) (x : Rat) : String :=
+      shadowKind fun an =>
+        let b := Analyzer.varBounds an.variableBounds name
+        within x ⟨b.lower.e, b.upper.e⟩
+    let causeExpr (e : Option (Exp Shadow)) (x : Rat) : String :=
+      shadowKind fun an =>
+        match e with
+        | some e => let b := Analyzer.boundsOf an.variableBounds e; within x ⟨b.lower.e, b.upper.e⟩
+        | none => false
+    let cause (_ : Unit) : String := if agrees () then "-float-rounding" else ""
+    -- the exact value of the same operation sequence, reported next to the published range
+    let samePath (f : Analyzer Shadow → Bounds Shadow) : List Sexp :=
+      if !(agrees ()) then [] else
+      match shadowAnalyzer lin maxSteps tolS d csS esS impl with
+      | some an => let b := f an; [app "exact-of-same-path" [encNum b.lower.e, encNum b.upper.e]]
+      | none => []
+    let esSh : List (Option (Exp Shadow)) := esS.map (Exp.dec (α := Shadow))
     -- exact run of the model with a small step cap: candidate coordinates only
     let exact := Analyzer.analyze dom cs tol 40
     -- A. feasible points
@@ -264,8 +300,8 @@ def check (lin : Bool) (maxSteps : Nat) (tolS : Sexp) (d csS esS : List Sexp) (i
         | some esc =>
           let rel := esc / rmax 1 (rabs p.2)
           if rel > floatSlack then
-            { acc with violation := some (app "violation" [.atom ("var-escape" ++ cause ()), .str p.1, ratAtom p.2, encNum pb.lower, encNum pb.upper,
-                .atom (sci rel), Oracle.encAssign a]) }
+            { acc with violation := some (app "violation" ([.atom ("var-escape" ++ causeVar p.1 p.2), .str p.1, ratAtom p.2, encNum pb.lower, encNum pb.upper,
+                .atom (sci rel), Oracle.encAssign a] ++ samePath fun an => Analyzer.varBounds an.variableBounds p.1)) }
           else
             let acc := { acc with worstVar := rmax acc.worstVar rel }
             match dom'.find? (·.name == p.1) with
@@ -293,7 +329,8 @@ def check (lin : Bool) (maxSteps : Nat) (tolS : Sexp) (d csS esS : List Sexp) (i
       if acc.violation.isSome then acc else
       let ρ := Oracle.lookup a
       let acc := { acc with boxPoints := acc.boxPoints + 1 }
-      (es.zip bs).foldl (fun (acc : Acc) (p : Exp E × Bounds E) =>
+      ((es.zip bs).zip esSh).foldl (fun (acc : Acc) (pq : (Exp E × Bounds E) × Option (Exp Shadow)) =>
+        let p := pq.1
         if acc.violation.isSome then acc else
         match eval ρ p.1 with
         | none => acc
@@ -306,7 +343,7 @@ def check (lin : Bool) (maxSteps : Nat) (tolS : Sexp) (d csS esS : List Sexp) (i
           | some esc =>
             let rel := esc / rmax 1 (rabs val)
             if rel > floatSlack then
-              { acc with violation := some (app "violation" [.atom ("expr-escape" ++ cause ()), p.1.enc, ratAtom val, encNum p.2.lower, encNum p.2.upper,
+              { acc with violation := some (app "violation" [.atom ("expr-escape" ++ causeExpr pq.2 val), p.1.enc, ratAtom val, encNum p.2.lower, encNum p.2.upper,
                   .atom (sci rel), Oracle.encAssign a]) }
             else { acc with worstExpr := rmax acc.worstExpr rel }) acc) accA
     match accB.violation with
